@@ -20,6 +20,7 @@ CONSTANTS
   DTs = {1}
   Jumps <- JumpsCover
   GenVersions = {0, 2}
+  VSet = 0
   MaxHeight = 2200
   FocusVals = {2, 5}
 VIEW GView
